@@ -13,10 +13,13 @@ import ExecnetVerif.Driver.TermIO
 import ExecnetVerif.Driver.FrameIO
 import ExecnetVerif.Driver.NetIO
 import ExecnetVerif.Driver.NetCheck
+import ExecnetVerif.Driver.NetFineIO
+import ExecnetVerif.Driver.PoolIO
+import ExecnetVerif.Driver.GateIO
 
 open ExecnetVerif
 
-def handlers : List (List String → Option String) := [serHandle, chanFileHandle, xspecHandle, groupHandle, rsyncHandle, bootHandle, rexecHandle, exitHandle, termHandle, frameHandle, Net.netHandle, Net.netCheckHandle]
+def handlers : List (List String → Option String) := [serHandle, chanFileHandle, xspecHandle, groupHandle, rsyncHandle, bootHandle, rexecHandle, exitHandle, termHandle, frameHandle, Net.netHandle, Net.netCheckHandle, Net.netFineHandle, poolHandle, gateHandle]
 
 def dispatch (line : String) : String :=
   let toks := (line.splitOn " ").filter (· ≠ "")
